@@ -61,6 +61,11 @@ def shapes():
         Variant("v0", [Stmt("a", ex=["s"]), scoped(Stmt("b", ex=["a"], hidden=["h"], depfile=True), "r0"), Stmt("c", ex=["b"]),
                        scoped(Stmt("d", ex=["s"]), "r2", "sub2.ninja")]),
     ]))
+    # several ready statements next to a console-pool statement: a dry run "starts" them all at once
+    S.append(("console_among_ready", [
+        Variant("v0", [Stmt("a1", ex=["s"]), Stmt("a2", ex=["s"]), Stmt("a3", ex=["t"]), Stmt("con", ex=["t"], pool="console"),
+                       Stmt("z1", ex=["s"]), Stmt("all", ex=["a1", "a2", "a3", "con", "z1"], phony=True)], defaults=["all"]),
+    ]))
     S.append(("no_input_edge", [
         Variant("v0", [Stmt("ver.h"), Stmt("obj", ex=["src"], im=["ver.h"]), Stmt("exe", ex=["obj"])]),
     ]))
